@@ -11,6 +11,7 @@ structure OptReq where
   path : Str
   origin : Str := []
   acrh : Str := []      -- Access-Control-Request-Headers
+  acrm : Str := []      -- Access-Control-Request-Method: a browser preflight carries it; options_filter.go never reads it
   deriving Repr
 
 structure Out where
